@@ -21,7 +21,27 @@ theorem header_ok {st : Dict} {a : Args} {h : Header} (hh : header st a = .ok h)
       · cases hh
       · split at hh
         · cases hh
-        · cases hh; rfl
+        · split at hh
+          · cases hh
+          · cases hh; rfl
+
+/-- an accepted header passes `validate_xml_document`: its names are XML names with declared
+    prefixes, its namespace declarations are legal, its values contain XML characters only -/
+theorem header_ok_xml {st : Dict} {a : Args} {h : Header} (hh : header st a = .ok h) : h.xmlOk = true := by
+  unfold header at hh
+  split at hh
+  · cases hh
+  · split at hh
+    · cases hh
+    · split at hh
+      · cases hh
+      · split at hh
+        · cases hh
+        · split at hh
+          · cases hh
+          · rename_i hx
+            cases hh
+            simpa using hx
 
 /-! ### slots of the Survey object are the settings -/
 
@@ -343,8 +363,9 @@ theorem fallback_only_title_and_id (σ : Spec.Sigma) (a : Args) (x : Option Str)
   | _ => rfl
 
 /-- **header_rejects**: the model raises one of the documented settings errors exactly when the
-    table says so (encryption needs instanceID; id `None`; root name not an XML name) -/
-theorem header_rejects {st : Dict} (hn : (keys st).Nodup) (a : Args) (e : Err) :
+    table says so (encryption needs instanceID; id `None`; root name not an XML name); the remaining
+    rejection, `xmlInvalid`, is characterised by `header_ok_xml` -/
+theorem header_rejects {st : Dict} (hn : (keys st).Nodup) (a : Args) (e : Err) (hne : e ≠ .xmlInvalid) :
     header st a = .error (.err e) ↔ Spec.rejects (sig st) a = some e := by
   have ho : omits st = Spec.omitId (sig st) := rfl
   unfold header Spec.rejects
@@ -363,7 +384,12 @@ theorem header_rejects {st : Dict} (hn : (keys st).Nodup) (a : Args) (e : Err) :
       by_cases h3 : Pyxv.Rows.isXmlTag (Spec.rootName (sig st) a) = true
       · simp only [h3, Bool.not_true, Bool.false_eq_true, if_false]
         constructor
-        · intro h; split at h <;> cases h
+        · intro h
+          split at h
+          · cases h
+          · split at h
+            · cases h; exact absurd rfl hne
+            · cases h
         · intro h; cases h
       · have h3' : Pyxv.Rows.isXmlTag (Spec.rootName (sig st) a) = false := by simpa using h3
         simp only [h3', Bool.not_false, if_true]
@@ -400,7 +426,7 @@ theorem dealias_nodup {hdr : List Str} {row : List (Str × Str)} {st : Dict}
     · split at h
       · cases h
       · cases h
-        rename_i out ho _
+        rename_i _ out ho _ _ _
         rw [keys_cleanD]
         exact processRow_nodup ho (by simp [keys])
 
@@ -505,6 +531,19 @@ example :
 example : header [(S "omit_instanceID", .s (S "yes")), (S "public_key", .s (S "k"))] {} = .error (.err .omitWithKey) ∧
     header [(S "id_string", .s (S "None"))] {} = .error (.err .emptyId) ∧
     header [(S "name", .s (S "1a"))] {} = .error (.err (.badName (S "1a"))) := by
+  decide +kernel
+
+/-- the XML validation pass rejects, and a `${ref}` in an `attribute::` value is header text like any
+    other (the lexer-dependent cases — `badRef`, `${ref}` in top-level settings — are exercised by the
+    correspondence run; evaluating the lexer inside the kernel is too slow for an `example`) -/
+example :
+    header [(S "attribute", .d [(S "1x", S "v")])] {} = .error (.err .xmlInvalid) ∧
+    header [(S "attribute", .d [(S "foo:x", S "v")])] {} = .error (.err .xmlInvalid) ∧
+    header [(S "title", .s [Char.ofNat 1])] {} = .error (.err .xmlInvalid) ∧
+    (∃ h, model (some ([S "version", S "attribute::k"], [(S "version", S "7"), (S "attribute::k", S "${q1}")])) {}
+        = .ok h ∧ h.read (.rootAttr (S "version")) = some (S "7") ∧
+          h.read (.rootAttr (S "k")) = some (S "${q1}")) := by
+  refine ⟨by decide +kernel, by decide +kernel, by decide +kernel, _, rfl, ?_⟩
   decide +kernel
 
 /-- the duplicate-spelling rule of `dealias_and_group_headers` is order dependent, as in the code -/
